@@ -608,9 +608,10 @@ impl NTupleOmitPrefixLayoutExtension {
     /// Object IDs have a prefix removed and the remaining part turned into an n tuple and returned
     /// as the object root path
     fn map_object_id(&self, object_id: &str) -> String {
-        if !object_id.is_ascii() {
+        // The extension is defined over the code points 0x20 to 0x7F
+        if !object_id.bytes().all(|b| (0x20..=0x7F).contains(&b)) {
             // TODO it would seem that map_object_id() needs to return a Result :(
-            panic!("The id '{}' cannot be mapped to a storage path using layout {} because it contains non-ASCII characters",
+            panic!("The id '{}' cannot be mapped to a storage path using layout {} because it contains control or non-ASCII characters",
                    object_id, self.config.extension_name);
         }
 
